@@ -122,6 +122,15 @@ def long_lived_writes(repo, subdir="norminette"):
     return out
 
 
+def enclosing_is_nested(fn, par):
+    cur = fn
+    while cur in par:
+        cur = par[cur]
+        if isinstance(cur, ast.FunctionDef):
+            return True
+    return False
+
+
 def global_writes(repo, subdir="norminette"):
     """statements that can write state outliving a Context: module-level names assigned in
     functions (global), class attributes (cls.x = / ClassName.x =), sys.* / os.environ,
@@ -147,6 +156,21 @@ def global_writes(repo, subdir="norminette"):
             for x in ast.walk(fn):
                 if isinstance(x, ast.Global):
                     globs |= set(x.names)
+            # closure state: a nested function that rebinds (nonlocal) or mutates a variable of
+            # an enclosing function keeps it alive as long as the closure lives -- for a decorator
+            # or a module-level helper that is the whole process; function attributes likewise
+            nonlocals = set()
+            for x in ast.walk(fn):
+                if isinstance(x, ast.Nonlocal):
+                    nonlocals |= set(x.names)
+            for x in ast.walk(fn):
+                where = f"{rel}:{enclosing_function(x, par)}"
+                if isinstance(x, ast.Name) and isinstance(x.ctx, ast.Store) and x.id in nonlocals:
+                    out.append({"where": where, "what": f"closure variable {x.id} rebound (nonlocal)"})
+                if isinstance(x, ast.Attribute) and isinstance(x.ctx, (ast.Store, ast.Del)) and isinstance(x.value, ast.Name) \
+                        and x.value.id not in local and x.value.id not in ("self", "cls") and x.value.id not in module_names \
+                        and x.value.id not in class_names and enclosing_is_nested(fn, par):
+                    out.append({"where": where, "what": f"attribute {x.value.id}.{x.attr} of an enclosing function's object assigned"})
             for x in ast.walk(fn):
                 where = f"{rel}:{enclosing_function(x, par)}"
                 if isinstance(x, ast.Name) and isinstance(x.ctx, ast.Store) and x.id in globs:
